@@ -121,6 +121,43 @@ class IterStateful(tud.IterableDataset):
         self.i = sd["i"]
 
 
+class IterStatefulEager(tud.IterableDataset):
+    """dataset-level state like IterStateful, but __iter__ reads the restored position WHEN IT IS CALLED (returns an iterator
+    object) instead of lazily at the first next() as a generator does"""
+
+    def __init__(self, sizes, rewind):
+        self.sizes, self.rewind, self.i = sizes, rewind, 0
+
+    def __iter__(self):
+        wi = tud.get_worker_info()
+        w = wi.id if wi else 0
+        items = shard_items(w, self.sizes[w]) if wi else [x for i, n in enumerate(self.sizes) for x in shard_items(i, n)]
+        return _EagerIt(self, items, self.i)
+
+    def state_dict(self):
+        return {"i": self.i}
+
+    def load_state_dict(self, sd):
+        self.i = sd["i"]
+
+
+class _EagerIt:
+    def __init__(self, ds, items, start):
+        self.ds, self.items, self.pos = ds, items, start
+
+    def __iter__(self):
+        return self
+
+    def __next__(self):
+        if self.pos >= len(self.items):
+            if self.ds.rewind:
+                self.ds.i = 0
+            raise StopIteration
+        self.pos += 1
+        self.ds.i = self.pos
+        return self.items[self.pos - 1]
+
+
 class IterIterStateful(tud.IterableDataset):
     """the ITERATOR (not the dataset) carries the state: every __iter__ starts at the first item"""
 
@@ -304,7 +341,7 @@ def make_dataset(cfg):
     if cfg.get("iterstate"):
         return IterIterStateful(cfg["sizes"])
     if cfg.get("stateful"):
-        return IterStateful(cfg["sizes"], cfg.get("rewind", False))
+        return (IterStatefulEager if cfg.get("eager") else IterStateful)(cfg["sizes"], cfg.get("rewind", False))
     return IterPlain(cfg["sizes"])
 
 
@@ -322,6 +359,15 @@ def make_loader(cfg, sched=None, cls=None, **extra):
             kw["multiprocessing_context"] = ArrivalCtx(W, sched)
     if cls is StatefulDataLoader:
         kw["snapshot_every_n_steps"] = cfg.get("I", 1)
+    if cfg["kind"] == "map" and cfg.get("sampler"):
+        from torchdata.stateful_dataloader.sampler import RandomSampler
+        g = torch.Generator()
+        g.manual_seed(cfg.get("gseed", 0))
+        sp = cfg["sampler"]
+        ds = make_dataset(cfg)
+        kw["sampler"] = RandomSampler(ds, replacement=sp["replacement"], num_samples=sp["num_samples"], generator=g)
+        kw.update(extra)
+        return cls(ds, **kw)
     if cfg["kind"] == "map" and cfg.get("shuffle"):
         g = torch.Generator()
         g.manual_seed(cfg.get("gseed", 0))
@@ -492,4 +538,5 @@ def gen_cfg(rng, kinds=("map", "iter"), maxW=3, errors=False):
         cfg["sizes"] = [rng.choice([0, 1, 2, 3, 4, 5, rng.randint(0, 7)]) for _ in range(W)]
         cfg["stateful"] = rng.random() < 0.7
         cfg["rewind"] = cfg["stateful"] and rng.random() < 0.5
+        cfg["eager"] = cfg["stateful"] and rng.random() < 0.4
     return cfg
